@@ -569,7 +569,10 @@ class SortChecker:
     def fire(self, rule):
         self.rules[rule] = self.rules.get(rule, 0)
 
-    def run(self, term):
+    def run_with_env(self, term, penv):
+        return self.run(term, penv)
+
+    def run(self, term, penv=None):
         # fixed point over local sorts
         for it in range(8):
             self.changed = False
@@ -578,7 +581,7 @@ class SortChecker:
             self._memo = {}
             self.nodes = 0
             self._final = False
-            self.effect(term, None, ())
+            self.effect(term, penv, ())
             if not self.changed:
                 break
         self._final = True
@@ -586,7 +589,7 @@ class SortChecker:
         self.unknown = []
         self._memo = {}
         self.nodes = 0
-        self.effect(term, None, ())
+        self.effect(term, penv, ())
         for n, ss in self.local_conflicts.items():
             self.prob("local_single_width", f"local {n} is given sorts {sorted(map(str, ss))}")
         return self.problems
